@@ -142,7 +142,7 @@ func (a *Action) Exec(bs map[string]interface{}) ExecResult {
 			return ExecResult{Outcome: "null"}
 		case "no-events":
 			// what such an execution means is not documented: only totality is asserted
-			return ExecResult{Outcome: "null"}
+			return ExecResult{Outcome: "unknown"}
 		}
 	}
 	w := CopyBs(bs)
@@ -424,7 +424,7 @@ func (s *Spec) step(st State, pending interface{}) StepResult {
 			bs = r.Bs
 			out = r.Emitted
 			res.ActionCompleted = true
-		case "null":
+		case "null", "unknown":
 			return StepResult{Kind: Unspecified, Class: "action-returned-null"}
 		default: // fail, bad
 			res.ActionFailed = true
@@ -492,6 +492,9 @@ func (s *Spec) step(st State, pending interface{}) StepResult {
 		failed, emitted := 0, false
 		for _, cand := range cands {
 			g := b.Guard.Exec(cand)
+			if g.Outcome == "unknown" {
+				return StepResult{Kind: Unspecified, Class: "guard-undocumented-result", Emitted: out, ActionFailed: res.ActionFailed, ActionCompleted: res.ActionCompleted}
+			}
 			switch g.Outcome {
 			case "ok":
 				accepted = append(accepted, g.Bs)
